@@ -8,8 +8,63 @@ from . import csrc
 from .csrc import ExtractError
 
 
+_SIMPLE = r"(?:(?!\{|\}|;|\bif \(|\bfor \(|\bwhile \(|\bdo\b|\bswitch \(|\bcase\b).)*;"
+
+
 def norm(s):
-    return re.sub(r"\s+", " ", s).strip()
+    """whitespace-normalised text in a canonical statement form: `(void) x;` statements dropped, braces around a single
+    simple statement dropped (`if (c) { x; }` = `if (c) x;`; never around a nested if / loop, so no dangling-else change),
+    `(size_t)(e)` spacing.  Comments are stripped by the caller.  The same canonical form is applied to the patterns
+    (`S`, `F`, `FA` below), so a brace / whitespace / comment / `(void)` difference in the source is not a shape change."""
+    s = re.sub(r"\s+", " ", s).strip()
+    s = re.sub(r"(?<=[;{}]) \(void\) ?[A-Za-z_][A-Za-z_0-9]*;", "", s)
+    prev = None
+    while prev != s:
+        prev = s
+        s = re.sub(r"\{ (" + _SIMPLE + r") \}(?! while)", r"\1", s)
+    return s
+
+
+def _rx(pat):
+    """the canonical statement form, applied to a regex written with braces: `\\{ stmt; \\}` -> `stmt;`"""
+    simple = r"(?:\[\^[^\]]*\]\*|(?!\\\{|\\\}|;|if \\\(|for \\\(|while \\\(|\(\.\*\?\)).)*;"
+    prev = None
+    while prev != pat:
+        prev = pat
+        pat = re.sub(r"\\\{ (" + simple + r") \\\}", r"\1", pat)
+    return pat
+
+
+def S(pat, body):
+    return re.search(_rx(pat), body)
+
+
+def F(pat, body):
+    return re.fullmatch(_rx(pat), body)
+
+
+def FA(pat, body):
+    return re.findall(_rx(pat), body)
+
+
+_LOCAL = r"(?:const )?(?:int32_t|int64_t|uint32_t|size_t|int|double|Janet|JanetArray \*|JanetBuffer \*|JanetByteView|JanetRange|uint8_t \*)"
+
+
+def alpha(body, names):
+    """rename the locals of a function body, in order of declaration, to `names` (the names the patterns use): a renamed
+    local is not a shape change.  Raises when the number of locals differs (then the shape did change)."""
+    decl = []
+    for m in re.finditer(r"(?<=[;{(] )" + _LOCAL + r" ?([A-Za-z_][A-Za-z_0-9]*)(?= ?[=;])", body):
+        if m.group(1) not in decl:
+            decl.append(m.group(1))
+    if len(decl) < len(names):
+        raise ExtractError("expected at least %d local declarations (%s), found %r" % (len(names), ", ".join(names), decl))
+    tmp = {d: "\0%d\0" % i for i, d in enumerate(decl[:len(names)])}
+    for d, t in tmp.items():
+        body = re.sub(r"(?<![A-Za-z_0-9>.])%s\b" % re.escape(d), t, body)
+    for i, nm in enumerate(names):
+        body = body.replace("\0%d\0" % i, nm)
+    return body
 
 
 def core_fn_body(src, name):
@@ -47,67 +102,78 @@ def extract(tree):
     capi = csrc.strip_comments(csrc.read(tree, "src/core/capi.c"))
     # ---- array growth
     b = norm(csrc.func_body(arr, "janet_array_push"))
-    m = re.search(r"if \(array->count == INT32_MAX\) \{ janet_panic\(\"array overflow\"\); \} int32_t newcount = array->count \+ 1; janet_array_ensure\(array, newcount, (\d+)\);", b)
+    m = S(r"if \(array->count == INT32_MAX\) \{ janet_panic\(\"array overflow\"\); \} int32_t newcount = array->count \+ 1; janet_array_ensure\(array, newcount, (\d+)\);", b)
     if not m:
         raise ExtractError("janet_array_push: overflow guard / ensure(newcount, g) not recognised")
     o["arrayPushGrowth"] = int(m.group(1))
     b = norm(csrc.func_body(arr, "janet_array_setcount"))
-    m = re.search(r"if \(count < 0\) return; if \(count > array->count\) \{ int32_t i; janet_array_ensure\(array, count, (\d+)\); for \(i = array->count; i < count; i\+\+\) \{ array->data\[i\] = janet_wrap_nil\(\); \} \} array->count = count;", b)
+    m = S(r"if \(count < 0\) return; if \(count > array->count\) \{ int32_t i; janet_array_ensure\(array, count, (\d+)\); for \(i = array->count; i < count; i\+\+\) \{ array->data\[i\] = janet_wrap_nil\(\); \} \} array->count = count;", b)
     if not m:
         raise ExtractError("janet_array_setcount: shape not recognised (nil fill of the new cells?)")
     o["arraySetcountGrowth"] = int(m.group(1))
     b = norm(csrc.func_body(arr, "janet_array_ensure"))
-    if not re.search(r"if \(capacity <= array->capacity\) return; int64_t new_capacity = \(\(int64_t\) capacity\) \* growth; if \(new_capacity > INT32_MAX\) new_capacity = INT32_MAX; capacity = \(int32_t\) new_capacity;", b):
+    if not S(r"if \(capacity <= array->capacity\) return; int64_t new_capacity = \(\(int64_t\) capacity\) \* growth; if \(new_capacity > INT32_MAX\) new_capacity = INT32_MAX; capacity = \(int32_t\) new_capacity;", b):
         raise ExtractError("janet_array_ensure: 64-bit capacity computation / clamp not recognised")
-    # ---- array/remove clamp
-    b = norm(core_fn_body(arr, "cfun_array_remove"))
-    if re.search(r"if \(at \+ n > array->count\) \{ n = array->count - at; \}", b):
+    # ---- array/remove clamp (locals renamed to array / at / n in order of declaration)
+    b = alpha(norm(core_fn_body(arr, "cfun_array_remove")), ["array", "at", "n"])
+    if not S(r"JanetArray \*array = janet_getarray\(argv, 0\); int32_t at = janet_getinteger\(argv, 1\); int32_t n = 1;", b):
+        raise ExtractError("cfun_array_remove: argument decoding not recognised")
+    m = S(r"if \(argc == 3\) \{ n = janet_getinteger\(argv, 2\); if \(n < 0\) janet_panicf\([^;]*\); \} (.*?)if \(n > 0\) \{ memmove\(array->data \+ at, array->data \+ at \+ n, "
+          r"\(size_t\) ?\(array->count - at - n\) \* sizeof\(Janet\)\); array->count -= n; \}", b)
+    if m:
+        clamp = m.group(1).strip()
+        if F(r"if \((?:n > array->count - at|array->count - at < n)\) \{ n = array->count - at; \}", clamp):
+            o["removeClampNoOverflow"] = True          # the clamp is computed from `count - at` (0 <= at <= count): no overflow
+        elif F(r"if \((?:at \+ n|n \+ at) > array->count\) \{ n = array->count - at; \}", clamp):
+            o["removeClampNoOverflow"] = False         # `at + n` in int32_t: overflows for n near INT32_MAX  (obligation aremove_no_ub)
+        else:
+            raise ExtractError("cfun_array_remove: clamp of n not recognised: %r (obligation aremove_no_ub is stated for the clamp `n > array->count - at`)" % clamp)
+    elif S(r"int32_t [A-Za-z_0-9]+ = (?:at \+ n|n \+ at);", b) or S(r"(?<!data \+ )\bat \+ n\b(?! ?\))", b):
+        # an end index `at + n` computed in int32_t and clipped afterwards: the same overflow as the unsafe clamp
         o["removeClampNoOverflow"] = False
-    elif re.search(r"if \(n > array->count - at\) \{ n = array->count - at; \}", b):
-        o["removeClampNoOverflow"] = True
     else:
-        raise ExtractError("cfun_array_remove: clamp of n not recognised")
-    if not re.search(r"if \(at < 0\) \{ at = array->count \+ at; \} if \(at < 0 \|\| at > array->count\) janet_panicf", b):
+        raise ExtractError("cfun_array_remove: clamp / memmove not recognised (obligation aremove_no_ub is stated for the clamp `n > array->count - at`)")
+    if not S(r"if \(at < 0\) \{ at = array->count \+ at; \} if \(at < 0 \|\| at > array->count\) janet_panicf", b):
         raise ExtractError("cfun_array_remove: index decoding / range check not recognised")
     b = norm(core_fn_body(arr, "cfun_array_insert"))
-    if not re.search(r"if \(at < 0\) \{ at = array->count \+ at \+ 1; \} if \(at < 0 \|\| at > array->count\) janet_panicf", b):
+    if not S(r"if \(at < 0\) \{ at = array->count \+ at \+ 1; \} if \(at < 0 \|\| at > array->count\) janet_panicf", b):
         raise ExtractError("cfun_array_insert: index decoding / range check not recognised")
-    m = re.search(r"if \(INT32_MAX - \(argc - 2\) < array->count\) \{ janet_panic\(\"array overflow\"\); \} janet_array_ensure\(array, array->count \+ argc - 2, (\d+)\);", b)
+    m = S(r"if \(INT32_MAX - \(argc - 2\) < array->count\) \{ janet_panic\(\"array overflow\"\); \} janet_array_ensure\(array, array->count \+ argc - 2, (\d+)\);", b)
     if not m:
         raise ExtractError("cfun_array_insert: overflow guard not recognised")
     o["arrayInsertGrowth"] = int(m.group(1))
     b = norm(core_fn_body(arr, "cfun_array_push"))
-    m = re.search(r"if \(INT32_MAX - argc \+ 1 <= array->count\) \{ janet_panic\(\"array overflow\"\); \} int32_t newcount = array->count - 1 \+ argc; janet_array_ensure\(array, newcount, (\d+)\);", b)
+    m = S(r"if \(INT32_MAX - argc \+ 1 <= array->count\) \{ janet_panic\(\"array overflow\"\); \} int32_t newcount = array->count - 1 \+ argc; janet_array_ensure\(array, newcount, (\d+)\);", b)
     if not m:
         raise ExtractError("cfun_array_push: overflow guard not recognised")
     o["arrayCfunPushGrowth"] = int(m.group(1))
     # ---- array/ensure argument validation
     b = norm(core_fn_body(arr, "cfun_array_ensure"))
-    m = re.search(r"int32_t newcount = janet_getinteger\(argv, 1\); int32_t growth = janet_getinteger\(argv, 2\); "
+    m = S(r"int32_t newcount = janet_getinteger\(argv, 1\); int32_t growth = janet_getinteger\(argv, 2\); "
                   r"if \(newcount < 1\) janet_panic\(\"expected positive integer\"\); (.*?)janet_array_ensure\(array, newcount, growth\);", b)
     if not m:
         raise ExtractError("cfun_array_ensure: argument decoding not recognised")
     chk = m.group(1).strip()
     if chk == "":
         o["ensureChecksGrowth"] = False
-    elif re.fullmatch(r"if \(growth < 1\) janet_panicf?\(\"[^\"]*\"(, [^)]*)?\);", chk):
+    elif F(r"if \(growth < 1\) janet_panicf?\(\"[^\"]*\"(, [^)]*)?\);", chk):
         o["ensureChecksGrowth"] = True
     else:
         raise ExtractError("cfun_array_ensure: unrecognised statements before janet_array_ensure: %r" % chk)
     # ---- janet_putindex
     b = norm(csrc.func_body(val, "janet_putindex"))
-    m = re.search(r"case JANET_ARRAY: \{ JanetArray \*array = janet_unwrap_array\(ds\); if \(index >= array->count\) \{ janet_array_ensure\(array, index \+ 1, (\d+)\); (.*?)array->count = index \+ 1; \} array->data\[index\] = value; break; \}", b)
+    m = S(r"case JANET_ARRAY: \{ JanetArray \*array = janet_unwrap_array\(ds\); if \(index >= array->count\) \{ janet_array_ensure\(array, index \+ 1, (\d+)\); (.*?)array->count = index \+ 1; \} array->data\[index\] = value; break; \}", b)
     if not m:
         raise ExtractError("janet_putindex: array case not recognised")
     o["putindexGrowth"] = int(m.group(1))
     fill = m.group(2).strip()
     if fill == "":
         o["putindexFillsArrayGap"] = False
-    elif re.fullmatch(r"for \(int32_t i = array->count; i < index; i\+\+\) \{ array->data\[i\] = janet_wrap_nil\(\); \}", fill):
+    elif F(r"for \(int32_t i = array->count; i < index; i\+\+\) \{ array->data\[i\] = janet_wrap_nil\(\); \}", fill):
         o["putindexFillsArrayGap"] = True
     else:
         raise ExtractError("janet_putindex: unrecognised statements before `array->count = index + 1`: %r" % fill)
-    m = re.search(r"if \(index >= buffer->count\) \{ janet_buffer_ensure\(buffer, index \+ 1, (\d+)\); (.*?)buffer->count = index \+ 1; \} buffer->data\[index\] =", b)
+    m = S(r"if \(index >= buffer->count\) \{ janet_buffer_ensure\(buffer, index \+ 1, (\d+)\); (.*?)buffer->count = index \+ 1; \} buffer->data\[index\] =", b)
     if not m:
         raise ExtractError("janet_putindex: buffer case not recognised")
     if int(m.group(1)) != o["putindexGrowth"]:
@@ -115,53 +181,53 @@ def extract(tree):
     fill = m.group(2).strip()
     if fill == "":
         o["putindexFillsBufferGap"] = False
-    elif re.fullmatch(r"memset\(buffer->data \+ buffer->count, 0, index - buffer->count\);", fill):
+    elif F(r"memset\(buffer->data \+ buffer->count, 0, index - buffer->count\);", fill):
         o["putindexFillsBufferGap"] = True
     else:
         raise ExtractError("janet_putindex: unrecognised statements before `buffer->count = index + 1`: %r" % fill)
     # ---- getter_checkint / janet_put bound
     b = norm(csrc.func_body(val, "getter_checkint"))
-    if not re.search(r"if \(!janet_checkint\(key\)\) goto bad; int32_t ret = janet_unwrap_integer\(key\); if \(ret < 0\) goto bad; if \(ret >= max\) goto bad; return ret;", b):
+    if not S(r"if \(!janet_checkint\(key\)\) goto bad; int32_t ret = janet_unwrap_integer\(key\); if \(ret < 0\) goto bad; if \(ret >= max\) goto bad; return ret;", b):
         raise ExtractError("getter_checkint: checks not recognised")
     b = norm(csrc.func_body(val, "janet_put"))
-    if len(re.findall(r"int32_t index = getter_checkint\(type, key, INT32_MAX - 1\);", b)) != 2:
+    if len(FA(r"int32_t index = getter_checkint\(type, key, INT32_MAX - 1\);", b)) != 2:
         raise ExtractError("janet_put: index bound INT32_MAX - 1 not recognised for array and buffer")
     b = norm(csrc.func_body(val, "janet_in"))
-    if not (re.search(r"int32_t index = getter_checkint\(type, key, array->count\); value = array->data\[index\];", b)
-            and re.search(r"int32_t index = getter_checkint\(type, key, buffer->count\); value = janet_wrap_integer\(buffer->data\[index\]\);", b)):
+    if not (S(r"int32_t index = getter_checkint\(type, key, array->count\); value = array->data\[index\];", b)
+            and S(r"int32_t index = getter_checkint\(type, key, buffer->count\); value = janet_wrap_integer\(buffer->data\[index\]\);", b)):
         raise ExtractError("janet_in: bounds check against count not recognised")
     # ---- capi range decoding
     b = norm(csrc.func_body(capi, "janet_gethalfrange"))
-    if not re.search(r"int32_t raw = janet_getinteger\(argv, n\); int32_t not_raw = raw; if \(not_raw < 0\) not_raw \+= length \+ 1; if \(not_raw < 0 \|\| not_raw > length\) janet_panicf", b):
+    if not S(r"int32_t raw = janet_getinteger\(argv, n\); int32_t not_raw = raw; if \(not_raw < 0\) not_raw \+= length \+ 1; if \(not_raw < 0 \|\| not_raw > length\) janet_panicf", b):
         raise ExtractError("janet_gethalfrange: decoding not recognised")
     b = norm(csrc.func_body(capi, "janet_getslice"))
-    if not re.search(r"range\.start = janet_getstartrange\(argv, argc, 1, length\); range\.end = janet_getendrange\(argv, argc, 2, length\); if \(range\.end < range\.start\) range\.end = range\.start;", b):
+    if not S(r"range\.start = janet_getstartrange\(argv, argc, 1, length\); range\.end = janet_getendrange\(argv, argc, 2, length\); if \(range\.end < range\.start\) range\.end = range\.start;", b):
         raise ExtractError("janet_getslice: decoding not recognised")
     # ---- buffers
     b = norm(csrc.func_body(buf, "janet_buffer_init_impl"))
-    m = re.search(r"if \(capacity < (\d+)\) capacity = (\d+);", b)
+    m = S(r"if \(capacity < (\d+)\) capacity = (\d+);", b)
     if not m or m.group(1) != m.group(2):
         raise ExtractError("janet_buffer_init_impl: minimum capacity not recognised")
     o["bufferMinCap"] = int(m.group(1))
     b = norm(csrc.func_body(buf, "janet_buffer_extra"))
-    m = re.search(r"if \(\(int64_t\)n \+ buffer->count > INT32_MAX\) \{ janet_panic\(\"buffer overflow\"\); \} int32_t new_size = buffer->count \+ n; if \(new_size > buffer->capacity\) \{ janet_buffer_can_realloc\(buffer\); "
+    m = S(r"if \(\(int64_t\)n \+ buffer->count > INT32_MAX\) \{ janet_panic\(\"buffer overflow\"\); \} int32_t new_size = buffer->count \+ n; if \(new_size > buffer->capacity\) \{ janet_buffer_can_realloc\(buffer\); "
                   r"int32_t new_capacity = \(new_size > \(INT32_MAX / (\d+)\)\) \? INT32_MAX : \(new_size \* (\d+)\);", b)
     if not m or m.group(1) != m.group(2):
         raise ExtractError("janet_buffer_extra: overflow guard / doubling not recognised")
     o["bufferExtraGrowth"] = int(m.group(1))
     b = norm(csrc.func_body(buf, "janet_buffer_setcount"))
-    m = re.search(r"if \(count < 0\) return; if \(count > buffer->count\) \{ int32_t oldcount = buffer->count; janet_buffer_ensure\(buffer, count, (\d+)\); memset\(buffer->data \+ oldcount, 0, count - oldcount\); \} buffer->count = count;", b)
+    m = S(r"if \(count < 0\) return; if \(count > buffer->count\) \{ int32_t oldcount = buffer->count; janet_buffer_ensure\(buffer, count, (\d+)\); memset\(buffer->data \+ oldcount, 0, count - oldcount\); \} buffer->count = count;", b)
     if not m:
         raise ExtractError("janet_buffer_setcount: shape not recognised (zero fill?)")
     o["bufferSetcountGrowth"] = int(m.group(1))
     b = norm(core_fn_body(buf, "cfun_buffer_blit"))
-    if not re.search(r"int64_t last = \(int64_t\) offset_dest \+ length_src; if \(last > INT32_MAX\) janet_panic\(\"buffer blit out of range\"\); int32_t last32 = \(int32_t\) last; janet_buffer_ensure\(dest, last32, (\d+)\); if \(last32 > dest->count\) dest->count = last32;", b):
+    if not S(r"int64_t last = \(int64_t\) offset_dest \+ length_src; if \(last > INT32_MAX\) janet_panic\(\"buffer blit out of range\"\); int32_t last32 = \(int32_t\) last; janet_buffer_ensure\(dest, last32, (\d+)\); if \(last32 > dest->count\) dest->count = last32;", b):
         raise ExtractError("cfun_buffer_blit: range guard not recognised")
     # ---- session 3: shapes the buffer theorems (Props/C04 `abs_buf_*`, `no_oob_*`) are about
     def self_shape(body, who):
         """the `view.bytes == buffer->data` branch: overflow-safe `janet_buffer_extra(buffer, view.len)` or the
         int32 sum `janet_buffer_ensure(buffer, buffer->count + view.len, 2)`"""
-        m = re.search(r"JanetByteView view = janet_getbytes\(argv, i\); if \(view\.bytes == buffer->data\) \{ (.*?) view\.bytes = buffer->data; \} janet_buffer_push_bytes\(buffer, view\.bytes, view\.len\);", body)
+        m = S(r"JanetByteView view = janet_getbytes\(argv, i\); if \(view\.bytes == buffer->data\) \{ (.*?) view\.bytes = buffer->data; \} janet_buffer_push_bytes\(buffer, view\.bytes, view\.len\);", body)
         if not m:
             raise ExtractError("%s: self-alias branch / push_bytes not recognised" % who)
         st = m.group(1).strip()
@@ -171,86 +237,86 @@ def extract(tree):
             return False
         raise ExtractError("%s: unrecognised statement in the self-alias branch: %r" % (who, st))
     b = norm(csrc.func_body(buf, "buffer_push_impl"))
-    if not re.search(r"for \(int32_t i = argc_offset; i < argc; i\+\+\) \{ if \(janet_checktype\(argv\[i\], JANET_NUMBER\)\) \{ janet_buffer_push_u8\(buffer, \(uint8_t\)\(janet_getinteger\(argv, i\) & 0xFF\)\); \} else \{", b):
+    if not S(r"for \(int32_t i = argc_offset; i < argc; i\+\+\) \{ if \(janet_checktype\(argv\[i\], JANET_NUMBER\)\) \{ janet_buffer_push_u8\(buffer, \(uint8_t\)\(janet_getinteger\(argv, i\) & 0xFF\)\); \} else \{", b):
         raise ExtractError("buffer_push_impl: number / byte-sequence dispatch not recognised")
     s1 = self_shape(b, "buffer_push_impl")
     b = norm(core_fn_body(buf, "cfun_buffer_chars"))
     s2 = self_shape(b, "cfun_buffer_chars")
     o["pushSelfNoOverflow"] = s1 and s2
     b = norm(csrc.func_body(buf, "janet_buffer_push_bytes"))
-    if not re.search(r"if \(0 == length\) return; janet_buffer_extra\(buffer, length\); memcpy\(buffer->data \+ buffer->count, string, length\); buffer->count \+= length;", b):
+    if not S(r"if \(0 == length\) return; janet_buffer_extra\(buffer, length\); memcpy\(buffer->data \+ buffer->count, string, length\); buffer->count \+= length;", b):
         raise ExtractError("janet_buffer_push_bytes: shape not recognised")
     b = norm(csrc.func_body(buf, "janet_buffer_push_u8"))
-    if not re.search(r"janet_buffer_extra\(buffer, 1\); buffer->data\[buffer->count\] = byte; buffer->count\+\+;", b):
+    if not S(r"janet_buffer_extra\(buffer, 1\); buffer->data\[buffer->count\] = byte; buffer->count\+\+;", b):
         raise ExtractError("janet_buffer_push_u8: shape not recognised")
     b = norm(csrc.func_body(buf, "janet_buffer_push_u32"))
-    if not re.search(r"janet_buffer_extra\(buffer, 4\); buffer->data\[buffer->count\] = x & 0xFF; buffer->data\[buffer->count \+ 1\] = \(x >> 8\) & 0xFF; buffer->data\[buffer->count \+ 2\] = \(x >> 16\) & 0xFF; buffer->data\[buffer->count \+ 3\] = \(x >> 24\) & 0xFF; buffer->count \+= 4;", b):
+    if not S(r"janet_buffer_extra\(buffer, 4\); buffer->data\[buffer->count\] = x & 0xFF; buffer->data\[buffer->count \+ 1\] = \(x >> 8\) & 0xFF; buffer->data\[buffer->count \+ 2\] = \(x >> 16\) & 0xFF; buffer->data\[buffer->count \+ 3\] = \(x >> 24\) & 0xFF; buffer->count \+= 4;", b):
         raise ExtractError("janet_buffer_push_u32: shape not recognised")
     b = norm(core_fn_body(buf, "cfun_buffer_word"))
-    if not re.search(r"double number = janet_getnumber\(argv, i\); uint32_t word = \(uint32_t\) number; if \(word != number\) janet_panicf\([^;]*\); janet_buffer_push_u32\(buffer, word\);", b):
+    if not S(r"double number = janet_getnumber\(argv, i\); uint32_t word = \(uint32_t\) number; if \(word != number\) janet_panicf\([^;]*\); janet_buffer_push_u32\(buffer, word\);", b):
         raise ExtractError("cfun_buffer_word: conversion check not recognised")
     b = norm(core_fn_body(buf, "cfun_buffer_u8"))
-    if not re.search(r"for \(i = 1; i < argc; i\+\+\) \{ janet_buffer_push_u8\(buffer, \(uint8_t\)\(janet_getinteger\(argv, i\) & 0xFF\)\); \}", b):
+    if not S(r"for \(i = 1; i < argc; i\+\+\) \{ janet_buffer_push_u8\(buffer, \(uint8_t\)\(janet_getinteger\(argv, i\) & 0xFF\)\); \}", b):
         raise ExtractError("cfun_buffer_u8: loop not recognised")
     b = norm(core_fn_body(buf, "cfun_buffer_push_at"))
-    if not re.search(r"int32_t index = janet_getinteger\(argv, 1\); int32_t old_count = buffer->count; if \(index < 0 \|\| index > old_count\) \{ janet_panicf\([^;]*\); \} buffer->count = index; buffer_push_impl\(buffer, argv, 2, argc\); if \(buffer->count < old_count\) \{ buffer->count = old_count; \}", b):
+    if not S(r"int32_t index = janet_getinteger\(argv, 1\); int32_t old_count = buffer->count; if \(index < 0 \|\| index > old_count\) \{ janet_panicf\([^;]*\); \} buffer->count = index; buffer_push_impl\(buffer, argv, 2, argc\); if \(buffer->count < old_count\) \{ buffer->count = old_count; \}", b):
         raise ExtractError("cfun_buffer_push_at: index check / count restore not recognised")
     b = norm(core_fn_body(buf, "cfun_buffer_push"))
-    if not re.search(r"JanetBuffer \*buffer = janet_getbuffer\(argv, 0\); buffer_push_impl\(buffer, argv, 1, argc\);", b):
+    if not S(r"JanetBuffer \*buffer = janet_getbuffer\(argv, 0\); buffer_push_impl\(buffer, argv, 1, argc\);", b):
         raise ExtractError("cfun_buffer_push: shape not recognised")
     b = norm(core_fn_body(buf, "cfun_buffer_trim"))
-    m = re.search(r"if \(buffer->count < buffer->capacity\) \{ int32_t newcap = buffer->count > (\d+) \? buffer->count : (\d+); uint8_t \*newData = janet_realloc\(buffer->data, newcap\);", b)
+    m = S(r"if \(buffer->count < buffer->capacity\) \{ int32_t newcap = buffer->count > (\d+) \? buffer->count : (\d+); uint8_t \*newData = janet_realloc\(buffer->data, newcap\);", b)
     if not m or m.group(1) != m.group(2):
         raise ExtractError("cfun_buffer_trim: shape not recognised")
     o["bufferTrimMin"] = int(m.group(1))
     b = norm(core_fn_body(buf, "cfun_buffer_popn"))
-    if not re.search(r"int32_t n = janet_getinteger\(argv, 1\); if \(n < 0\) janet_panic\([^;]*\); if \(buffer->count < n\) \{ buffer->count = 0; \} else \{ buffer->count -= n; \}", b):
+    if not S(r"int32_t n = janet_getinteger\(argv, 1\); if \(n < 0\) janet_panic\([^;]*\); if \(buffer->count < n\) \{ buffer->count = 0; \} else \{ buffer->count -= n; \}", b):
         raise ExtractError("cfun_buffer_popn: shape not recognised")
     b = norm(core_fn_body(buf, "cfun_buffer_clear"))
-    if not re.search(r"JanetBuffer \*buffer = janet_getbuffer\(argv, 0\); buffer->count = 0;", b):
+    if not S(r"JanetBuffer \*buffer = janet_getbuffer\(argv, 0\); buffer->count = 0;", b):
         raise ExtractError("cfun_buffer_clear: shape not recognised")
     b = norm(core_fn_body(buf, "cfun_buffer_new_filled"))
-    if not re.search(r"int32_t count = janet_getinteger\(argv, 0\); if \(count < 0\) count = 0; int32_t byte = 0; if \(argc == 2\) \{ byte = janet_getinteger\(argv, 1\) & 0xFF; \} JanetBuffer \*buffer = janet_buffer\(count\); if \(buffer->data && count > 0\) memset\(buffer->data, byte, count\); buffer->count = count;", b):
+    if not S(r"int32_t count = janet_getinteger\(argv, 0\); if \(count < 0\) count = 0; int32_t byte = 0; if \(argc == 2\) \{ byte = janet_getinteger\(argv, 1\) & 0xFF; \} JanetBuffer \*buffer = janet_buffer\(count\); if \(buffer->data && count > 0\) memset\(buffer->data, byte, count\); buffer->count = count;", b):
         raise ExtractError("cfun_buffer_new_filled: shape not recognised")
     b = norm(core_fn_body(buf, "cfun_buffer_frombytes"))
-    if not re.search(r"JanetBuffer \*buffer = janet_buffer\(argc\); for \(i = 0; i < argc; i\+\+\) \{ int32_t c = janet_getinteger\(argv, i\); buffer->data\[i\] = c & 0xFF; \} buffer->count = argc;", b):
+    if not S(r"JanetBuffer \*buffer = janet_buffer\(argc\); for \(i = 0; i < argc; i\+\+\) \{ int32_t c = janet_getinteger\(argv, i\); buffer->data\[i\] = c & 0xFF; \} buffer->count = argc;", b):
         raise ExtractError("cfun_buffer_frombytes: shape not recognised")
     b = norm(core_fn_body(buf, "cfun_buffer_fill"))
-    if not re.search(r"if \(argc == 2\) \{ byte = janet_getinteger\(argv, 1\) & 0xFF; \} if \(buffer->count\) \{ memset\(buffer->data, byte, buffer->count\); \}", b):
+    if not S(r"if \(argc == 2\) \{ byte = janet_getinteger\(argv, 1\) & 0xFF; \} if \(buffer->count\) \{ memset\(buffer->data, byte, buffer->count\); \}", b):
         raise ExtractError("cfun_buffer_fill: shape not recognised")
     b = norm(core_fn_body(buf, "cfun_buffer_slice"))
-    if not re.search(r"JanetByteView view = janet_getbytes\(argv, 0\); JanetRange range = janet_getslice\(argc, argv\); JanetBuffer \*buffer = janet_buffer\(range\.end - range\.start\); if \(buffer->data\) memcpy\(buffer->data, view\.bytes \+ range\.start, range\.end - range\.start\); buffer->count = range\.end - range\.start;", b):
+    if not S(r"JanetByteView view = janet_getbytes\(argv, 0\); JanetRange range = janet_getslice\(argc, argv\); JanetBuffer \*buffer = janet_buffer\(range\.end - range\.start\); if \(buffer->data\) memcpy\(buffer->data, view\.bytes \+ range\.start, range\.end - range\.start\); buffer->count = range\.end - range\.start;", b):
         raise ExtractError("cfun_buffer_slice: shape not recognised")
     b = norm(csrc.func_body(buf, "bitloc"))
-    if not re.search(r"double x = janet_getnumber\(argv, 1\); int64_t bitindex = \(int64_t\) x; int64_t byteindex = bitindex >> 3; int which_bit = bitindex & 7; if \(bitindex != x \|\| bitindex < 0 \|\| byteindex >= buffer->count\) janet_panicf", b):
+    if not S(r"double x = janet_getnumber\(argv, 1\); int64_t bitindex = \(int64_t\) x; int64_t byteindex = bitindex >> 3; int which_bit = bitindex & 7; if \(bitindex != x \|\| bitindex < 0 \|\| byteindex >= buffer->count\) janet_panicf", b):
         raise ExtractError("bitloc: bit index decoding / range check not recognised")
     for fn, stmt in (("cfun_buffer_bitset", r"buffer->data\[index\] \|= 1 << bit;"), ("cfun_buffer_bitclear", r"buffer->data\[index\] &= ~\(1 << bit\);"),
                      ("cfun_buffer_bittoggle", r"buffer->data\[index\] \^= \(1 << bit\);"), ("cfun_buffer_bitget", r"return janet_wrap_boolean\(buffer->data\[index\] & \(1 << bit\)\);")):
         b = norm(core_fn_body(buf, fn))
-        if not re.search(r"bitloc\(argc, argv, &buffer, &index, &bit\); " + stmt, b):
+        if not S(r"bitloc\(argc, argv, &buffer, &index, &bit\); " + stmt, b):
             raise ExtractError("%s: shape not recognised" % fn)
     b = norm(core_fn_body(buf, "cfun_buffer_blit"))
-    if not re.search(r"int same_buf = src\.bytes == dest->data; int32_t offset_dest = 0; int32_t offset_src = 0; "
+    if not S(r"int same_buf = src\.bytes == dest->data; int32_t offset_dest = 0; int32_t offset_src = 0; "
                      r"if \(argc > 2 && !janet_checktype\(argv\[2\], JANET_NIL\)\) offset_dest = janet_gethalfrange\(argv, 2, dest->count, \"dest-start\"\); "
                      r"if \(argc > 3 && !janet_checktype\(argv\[3\], JANET_NIL\)\) offset_src = janet_gethalfrange\(argv, 3, src\.len, \"src-start\"\); "
                      r"int32_t length_src; if \(argc > 4\) \{ int32_t src_end = src\.len; if \(!janet_checktype\(argv\[4\], JANET_NIL\)\) src_end = janet_gethalfrange\(argv, 4, src\.len, \"src-end\"\); "
                      r"length_src = src_end - offset_src; if \(length_src < 0\) length_src = 0; \} else \{ length_src = src\.len - offset_src; \}", b):
         raise ExtractError("cfun_buffer_blit: argument decoding not recognised")
-    if not re.search(r"if \(length_src\) \{ if \(same_buf\) \{ src\.bytes = dest->data; memmove\(dest->data \+ offset_dest, src\.bytes \+ offset_src, length_src\); \} else \{ memcpy\(dest->data \+ offset_dest, src\.bytes \+ offset_src, length_src\); \} \}", b):
+    if not S(r"if \(length_src\) \{ if \(same_buf\) \{ src\.bytes = dest->data; memmove\(dest->data \+ offset_dest, src\.bytes \+ offset_src, length_src\); \} else \{ memcpy\(dest->data \+ offset_dest, src\.bytes \+ offset_src, length_src\); \} \}", b):
         raise ExtractError("cfun_buffer_blit: alias guard (memmove for the same buffer, source re-read after ensure) not recognised")
     b = norm(csrc.func_body(val, "janet_put"))
-    if not re.search(r"case JANET_BUFFER: \{ JanetBuffer \*buffer = janet_unwrap_buffer\(ds\); int32_t index = getter_checkint\(type, key, INT32_MAX - 1\); if \(!janet_checkint\(value\)\) janet_panicf\([^;]*\); "
+    if not S(r"case JANET_BUFFER: \{ JanetBuffer \*buffer = janet_unwrap_buffer\(ds\); int32_t index = getter_checkint\(type, key, INT32_MAX - 1\); if \(!janet_checkint\(value\)\) janet_panicf\([^;]*\); "
                      r"if \(index >= buffer->count\) \{ janet_buffer_setcount\(buffer, index \+ 1\); \} buffer->data\[index\] = \(uint8_t\)\(janet_unwrap_integer\(value\) & 0xFF\); break; \}", b):
         raise ExtractError("janet_put: buffer case not recognised")
     # ---- arrays: new-filled / peek / clear / trim / join
     b = norm(core_fn_body(arr, "cfun_array_new_filled"))
-    if not re.search(r"int32_t count = janet_getnat\(argv, 0\); Janet x = \(argc == 2\) \? argv\[1\] : janet_wrap_nil\(\); JanetArray \*array = janet_array\(count\); for \(int32_t i = 0; i < count; i\+\+\) \{ array->data\[i\] = x; \} array->count = count;", b):
+    if not S(r"int32_t count = janet_getnat\(argv, 0\); Janet x = \(argc == 2\) \? argv\[1\] : janet_wrap_nil\(\); JanetArray \*array = janet_array\(count\); for \(int32_t i = 0; i < count; i\+\+\) \{ array->data\[i\] = x; \} array->count = count;", b):
         raise ExtractError("cfun_array_new_filled: shape not recognised")
     b = norm(csrc.func_body(arr, "janet_array_peek"))
-    if not re.search(r"if \(array->count\) \{ return array->data\[array->count - 1\]; \} else \{ return janet_wrap_nil\(\); \}", b):
+    if not S(r"if \(array->count\) \{ return array->data\[array->count - 1\]; \} else \{ return janet_wrap_nil\(\); \}", b):
         raise ExtractError("janet_array_peek: shape not recognised")
     b = norm(core_fn_body(arr, "cfun_array_clear"))
-    if not re.search(r"JanetArray \*array = janet_getarray\(argv, 0\); array->count = 0;", b):
+    if not S(r"JanetArray \*array = janet_getarray\(argv, 0\); array->count = 0;", b):
         raise ExtractError("cfun_array_clear: shape not recognised")
     return o
 
